@@ -33,8 +33,8 @@ def _replay(model):
 
 def register(reg):
     S = ['C10']
-    reg.cls('Scanner')
-    reg.cls('TerminalDef', consts={'name': 'str'})
+    reg.cls('Scanner', fields={'terminals': 'list[TerminalDef]'})
+    reg.cls('TerminalDef', consts={'name': 'str', 'priority': 'int'})
     reg.cls('BasicLexer', target='lark.lexer:BasicLexer',
             fields={'_scanner': 'opt[Scanner]', '_search_scanner': 'opt[Scanner]', 'callback': 'dict[str,any]'},
             consts={'terminals': 'list[TerminalDef]', 'g_regex_flags': 'any', 're': 'any', 'use_bytes': 'any', 'user_callbacks': 'dict[str,any]', 'ignore_types': 'set[str]'})
@@ -46,7 +46,7 @@ def register(reg):
                  ensures=['result[0] is CU_TERMS(terminals, g_regex_flags, re_, use_bytes)', 'fresh(result[1])'])
     reg.contract('Scanner.__init__', assumed=True, kind='method',
                  params={'self': 'Scanner', 'terminals': 'list[TerminalDef]', 'g_regex_flags': 'any', 're_': 'any', 'use_bytes': 'any'}, modifies=['self'],
-                 ensures=['SAME_SCANNER(self, SCANNER_OF(terminals, g_regex_flags, re_, use_bytes))'])
+                 ensures=['SAME_SCANNER(self, SCANNER_OF(terminals, g_regex_flags, re_, use_bytes))', 'self.terminals is terminals'])
     reg.specfun('SAME_SCANNER', [('a', 'Scanner'), ('b', 'Scanner')], 'bool', doc='equal behaviour (same terminals, flags, re module, use_bytes)')
     reg.cls('CallChain')
     reg.contract('CallChain.__init__', assumed=True, kind='method', params={'self': 'CallChain', 'callback1': 'any', 'callback2': 'any', 'cond': 'any'}, modifies=['self'])
@@ -77,17 +77,20 @@ def register(reg):
                           'implies(old(self._scanner) is None, %s)' % BUILT],
                  names={'self._build_scanner': ('contract', 'lark.lexer:BasicLexer._build_scanner/call')},
                  replay=_replay)
+    T, R = 'self.terminals', 'result.terminals'
     reg.contract('lark.lexer:BasicLexer.search_scanner', serves=['C10', 'C14'], kind='property',
                  params={'self': 'BasicLexer'}, returns='Scanner', modifies=['self'],
-                 types={'terminals': 'list[TerminalDef]'},
-                 ghost={'publish': ['_search_scanner'], 'listcomp-filter': True},
+                 ghost={'publish': ['_search_scanner']},
                  ensures=['result is self._search_scanner',
                           'implies(old(self._search_scanner) is not None, self._search_scanner is old(self._search_scanner) and self.callback is old(self.callback) and self._scanner is old(self._scanner))',
-                          'self._scanner is old(self._scanner)', 'self.callback is old(self.callback)'],
-                 names={'Scanner': ('class', 'Scanner'),
-                        'expr:[t for t in self.terminals if t.name not in self.ignore_types]': ('contract', 'nonignored')},
+                          'self._scanner is old(self._scanner)', 'self.callback is old(self.callback)',
+                          # C14: the start search runs over EVERY non-ignored terminal of the lexer (keywords folded into a regexp terminal included: the
+                          # regexp may itself be ignored) and over nothing else, in the lexer's order
+                          'implies(old(self._search_scanner) is None, all(implies(%(T)s[i].name not in self.ignore_types, any(%(R)s[k] is %(T)s[i] for k in range(0, len(%(R)s)))) for i in range(0, len(%(T)s))))' % dict(T=T, R=R),
+                          'implies(old(self._search_scanner) is None, all(any(%(R)s[k] is %(T)s[i] and %(T)s[i].name not in self.ignore_types for i in range(0, len(%(T)s))) for k in range(0, len(%(R)s))))' % dict(T=T, R=R),
+                          'implies(old(self._search_scanner) is None, SAME_SCANNER(result, SCANNER_OF(result.terminals, self.g_regex_flags, self.re, self.use_bytes)))'],
+                 names={'Scanner': ('class', 'Scanner')},
                  replay=_replay)
-    reg.contract('nonignored', assumed=True, params={'self': 'BasicLexer'}, ghost_params=['self'], returns='list[TerminalDef]', ensures=['fresh(result)'])
 
     reg.cls('PatternRE', target='lark.lexer:PatternRE', fields={'_width': 'opt[tuple[int,int]]'})
     reg.specfun('REGEXP', [('p', 'PatternRE')], 'str', doc='to_regexp(): value wrapped in its flags')
